@@ -369,6 +369,31 @@ class C01(LiftProp):
                 bs = block_of(blocks, p)
                 if bs and ((p[3] - p[2]) < min(b[3] - b[2] for b in bs) or p[1] == "-" or p[5] == "-"):
                     ev.nontrivial = (case_key(case), tuple(iv))
+        if not ev.judge and case["ivs"]:
+            # results fed back into the pair API: a returned pair lifts its own reference ends to its own query
+            # ends, and clamping it once more to the request changes nothing
+            req = "liftthru %s %s" % (self.src(case), ",".join(iv_tok(*iv) for iv in case["ivs"]))
+            i2, m2 = both(ctx, ev, req)
+            if i2 != m2 and not ev.corr:
+                ev.corr = "results fed back into the pair API differ: impl %r vs model %r" % (i2[:400], m2[:400])
+            for iv, ans in zip(case["ivs"], i2.split(" ; ")[1:]):
+                if ans == "panic":
+                    ev.judge = "feeding the answer for %s back into the pair API panicked" % (iv,)
+                    break
+                if not ans.startswith("some "):
+                    continue
+                for item in ans[5:].split(" | "):
+                    pr, a, b_, again = item.split(" ")
+                    q = pr.split(">")[1]
+                    qname, qstrand, span = q.rsplit(":", 2)
+                    qa, qb = span.split("-")
+                    if a != "%s:%s:%s" % (qname, qstrand, qa) or b_ != "%s:%s:%s" % (qname, qstrand, qb):
+                        ev.judge = "returned pair %s lifts its reference ends to %s and %s" % (pr, a, b_)
+                    elif again != pr:
+                        ev.judge = "returned pair %s clamped once more to the request %s becomes %s" % (pr, iv, again)
+                if ev.judge:
+                    break
+            ev.tags.append("fed-back")
         return ev
 
 
